@@ -437,7 +437,7 @@ def gen_scenario(rng, idx, mode="full", force=None):
     params["collateral_percent"] = rng.choice([100, 150, 150, 150, 200, 300, 125, 101])
     params["max_collateral_inputs"] = rng.choice([1, 2, 3, 3])
     params["cpb"] = rng.choice([4310, 4310, 4310, 1000, 10000, 100])
-    kind = rng.choices(["spend-witness", "spend-ref", "mint", "spend-ref+mint"], weights=[45, 25, 20, 10])[0]
+    kind = rng.choices(["spend-witness", "spend-ref", "mint", "spend-ref+mint", "spend-own"], weights=[40, 22, 18, 10, 10])[0]
     p = {**S.DEFAULT_PARAMS, **params}
     ref_size = 41 if "ref" in kind else 0
     amt = collateral_amount(p, ref_size)
@@ -452,7 +452,9 @@ def gen_scenario(rng, idx, mode="full", force=None):
                       "coin": rng.choice([10 * ADA, 4 * ADA, 30 * ADA]), "datum_hash": 7})
         op = {"op": "script_input", "u": "s", "datum": 7,
               "redeemer": {"data": 1, "units": units()}}
-        if "ref" in kind:
+        if kind == "spend-own":
+            utxos[-1]["script"] = SPEND          # the spent output carries its own validator (no witness copy, no reference input)
+        elif "ref" in kind:
             holder = rng.choice(["k0", "k1", "k2"])
             utxos.append({"id": "r", "txid": txid(tag + "/r"), "ix": 1, "addr": holder, "coin": rng.choice([3 * ADA, 20 * ADA]),
                           "script": SPEND})
@@ -504,6 +506,9 @@ def gen_scenario(rng, idx, mode="full", force=None):
         if "addr" in where:
             key = addr if addr in ("k0", "k1") else rng.choice(["k0", "k1"])
             addr_utxos[key].append(u["id"])      # what the chain index returns for the address
+    pots = [o for o in ops if o["op"] == "potential"]
+    if pots and rng.random() < 0.25:
+        ops.append(dict(rng.choice(pots)))        # the same UTxO listed twice among the potential inputs
     rng.shuffle(ops)
     # outputs / address inputs
     if rng.random() < 0.5:
